@@ -45,8 +45,9 @@ pub fn run_paused<F: Future>(f: F) -> F::Output {
         .build()
         .expect("runtime");
     let out = rt.block_on(f);
+    crate::PRINT_PANICS.store(false, Ordering::SeqCst);
+    crate::install_quiet_panic_hook();
     drop(rt);
-    crate::HOOK_DIRTY.store(true, Ordering::SeqCst);
     out
 }
 
@@ -59,8 +60,12 @@ pub fn run_multi<F: Future>(workers: usize, f: F) -> F::Output {
         .build()
         .expect("runtime");
     let out = rt.block_on(f);
+    // Tearing the runtime down cancels the machines' tasks while other workers may still be polling their
+    // parents; the resulting JoinError panics are an artefact of the teardown, not of the run, so the
+    // simulator's exit-on-panic hook is replaced first.
+    crate::PRINT_PANICS.store(false, Ordering::SeqCst);
+    crate::install_quiet_panic_hook();
     rt.shutdown_timeout(Duration::from_millis(200));
-    crate::HOOK_DIRTY.store(true, Ordering::SeqCst);
     out
 }
 
